@@ -45,6 +45,10 @@ CHECKS = {
    text="TLA+ spec InitialFlight: what an observer who removes Initial protection with the standard keys must see of the first flight given the InitialPacketSpec knobs (connection-ID lengths, first packet number and increment, per-packet packet-number length incl. list vs deprecated single value, token length / prefix / freshness across dials, frame types and counts, CRYPTO continuity and planned split offsets, exact packet size vs minimum datagram size). TLC enumerates the knob product over base fingerprints (FlightKnobs); every configuration is dialled 2-3 times into a silent socket, built-in fingerprints 20-100 times; every decrypted packet is validated by TLC (collect mode).",
    note="Trusted: TLC, the independent observer (Initial key derivation, header protection, AEAD, frame reader). Configurations whose first packet number cannot be carried by the chosen encoding are excluded (no server could decode them). Only the first flight (before the first PTO) is judged.",
    technique="TLA+ (TLC) knob enumeration + real dials observed on the wire by an independent decryptor + TLC trace validation"),
+ "C11": dict(engine="InitialFlight", design="5 C11",
+   text="TLA+ spec InitialFlight (ClientHello part) with the suppression operator checked by TLC on its own (exact / idempotent / order preserving for all lists <=3 and all suppression sets): the wire's quic_transport_parameters equal the spec list after suppression, in order or as a multiset when randomised; the identifier list the spec reports equals the canonicalised wire; the per-dial shuffle reaches every permutation of small lists with position frequencies within 7 sigma of uniform. TLC enumerates parameter lists (standard / raw / GREASE / GREASE-shaped raw, duplicates) x suppression sets x randomisation; real dials into a silent socket, ClientHello reassembled from the decrypted flight by the independent observer; validated by TLC.",
+   note="Trusted: TLC, the independent observer. NOT covered in this round: equality of cipher suites / extension contents with a second uTLS instance, and the reference fingerprinter's identifiers (stability / recorded values) - stated as residue in DESIGN.md.",
+   technique="TLA+ (TLC) enumeration of parameter lists + real dials observed on the wire + TLC trace validation incl. a distributional post-condition"),
 }
 NA = {}
 
